@@ -43,6 +43,25 @@ func GenText(r *rand.Rand) string {
 	}
 }
 
+// GenLongText: text whose length sits at a limit somebody might have in mind (255 / 256 bytes, 1 KiB, 4 KiB), ASCII or
+// with a multi-byte character straddling the limit.
+func GenLongText(r *rand.Rand) string {
+	n := Pick(r, 254, 255, 256, 257, 300, 319, 512, 1023, 1024, 1025, 4096)
+	var b strings.Builder
+	multi := r.Intn(3) == 0
+	for b.Len() < n {
+		switch {
+		case multi && b.Len()%97 == 96:
+			b.WriteRune(rune(0x4e00 + r.Intn(0x100)))
+		case multi && b.Len() >= n-2:
+			b.WriteRune(rune(0x80 + r.Intn(0x700)))
+		default:
+			b.WriteByte(byte('a' + r.Intn(26)))
+		}
+	}
+	return b.String()
+}
+
 func GenTextNonEmpty(r *rand.Rand) string {
 	for {
 		if s := GenText(r); s != "" {
